@@ -1094,6 +1094,36 @@ func (c *Context) Exp(d, x *Decimal) (Condition, error) {
 		return c.inexactResult(res | c.round(d, &near))
 	}
 
+	// if x**2/2 is below a unit of the working precision; then result 1 + x
+	if xadj := int64(x.Exponent) + x.NumDigits() - 1; 2*xadj < -int64(cp)-3 {
+		// e**x lies above 1 + x by less than such a unit: 1 + x, formed
+		// exactly, with a sticky digit stands in for it. The series would
+		// compute the same at greater cost, and for a small enough x could not:
+		// its terms are numbers of cp digits whose exponents then lie below
+		// what the package represents (Exp(1E-60000) at Precision 60005 failed
+		// with "exponent out of range").
+		var near Decimal
+		exact := BaseContext.WithPrecision(0)
+		exact.Traps = 0
+		if fl, err := exact.Add(&near, decimalOne, x); err == nil && !fl.Any() {
+			// The sticky digit goes beyond the digits of 1 + x and beyond
+			// the working precision.
+			pad := int64(cp) + 2 - near.NumDigits()
+			if pad < 1 {
+				pad = 1
+			}
+			if e := int64(near.Exponent) - pad; e >= MinExponent {
+				var tmp BigInt
+				if scale, err := exp10(pad, &tmp); err == nil {
+					near.Coeff.Mul(&near.Coeff, scale)
+					near.Coeff.Add(&near.Coeff, bigOne)
+					near.Exponent = int32(e)
+					return c.inexactResult(res | c.round(d, &near))
+				}
+			}
+		}
+	}
+
 	// Stage 2
 	// Add x.NumDigits because the paper assumes that x.Coeff [0.1, 1).
 	t := x.Exponent + int32(x.NumDigits())
